@@ -551,4 +551,199 @@ theorem DddmpSt.rebuild (H : FoaSpec) (C : DddmpRCtx f i2p levels nv o2n n l2v0)
 
 end Rebuild
 
+/-! ### before the loop: header, body -/
+
+theorem dddmpInfo2permid_T {f : DddmpFile} {ids permids : List Int} {i2p : List (Tok × Int)} {nv : Int}
+    (h : dddmpInfo2permid f ids permids = .ok i2p) (hn : f.nvars = some nv) :
+    dictGet i2p (.str "T") = some (nv + 1) := by
+  unfold dddmpInfo2permid at h
+  split at h
+  · cases h
+  · simp only [hn, Except.ok.injEq] at h
+    rw [← h]
+    exact dictGet_dictSet_same _ _ _
+
+theorem dddmpHeader_inv {f : DddmpFile} {i2p levels : List (Tok × Int)} {roots : List Int}
+    (h : dddmpHeader f = .ok (i2p, levels, roots)) :
+    ∃ ids permids rootids, f.ids = some ids ∧ f.permids = some permids ∧ f.rootids = some rootids ∧
+      dddmpInfo2permid f ids permids = .ok i2p ∧ dddmpLevels f permids = .ok levels ∧
+      roots = dedupInts rootids := by
+  unfold dddmpHeader at h
+  split at h
+  · cases h
+  · split at h
+    · next ids permids rootids hi hp hr =>
+      split at h
+      · cases h
+      · next i2p' h1 =>
+        split at h
+        · cases h
+        · next levels' h2 =>
+          simp only [Except.ok.injEq, Prod.mk.injEq] at h
+          obtain ⟨rfl, rfl, rfl⟩ := h
+          exact ⟨ids, permids, rootids, hi, hp, hr, h1, h2, rfl⟩
+    · cases h
+
+theorem dddmpHeader_T {f : DddmpFile} {i2p levels : List (Tok × Int)} {roots : List Int} {nv : Int}
+    (h : dddmpHeader f = .ok (i2p, levels, roots)) (hn : f.nvars = some nv) :
+    dictGet i2p (.str "T") = some (nv + 1) := by
+  obtain ⟨_, _, _, _, _, _, h1, _, _⟩ := dddmpHeader_inv h
+  exact dddmpInfo2permid_T h1 hn
+
+theorem dddmpBodyLoop_ok {f : DddmpFile} {i2p levels : List (Tok × Int)} {nv : Int}
+    (hw : DddmpBodyWF f i2p levels nv) (hT : dictGet i2p (.str "T") = some (nv + 1)) :
+    ∀ (rest : List DddmpNode) (acc : List (Int × DddmpEntry)), (∀ x ∈ rest, x ∈ f.nodes) →
+      (acc.map (·.1) ++ rest.map (·.u)).Nodup →
+      dddmpBodyLoop i2p acc rest = .ok (acc ++ rest.map (dddmpEntryOf i2p)) := by
+  intro rest
+  induction rest with
+  | nil => intro acc _ _; simp [dddmpBodyLoop]
+  | cons x rest ih =>
+    intro acc hsub hnd
+    have hx := hsub x List.mem_cons_self
+    obtain ⟨k, hk, _, _, _⟩ := hw.lineLevel hT hx
+    have hthn : ¬ (x.thn < 0) := by
+      rcases hw.line x hx with ht | hnode
+      · rw [ht.2.2.1]; omega
+      · have := hnode.2.2.1; omega
+    have hnot : x.u ∉ acc.map (·.1) := by
+      intro hm
+      have := (List.nodup_append.mp hnd).2.2 _ hm x.u (by simp)
+      exact this rfl
+    have hadd : dddmpAddNode i2p acc x = .ok (acc ++ [dddmpEntryOf i2p x]) := by
+      simp only [dddmpAddNode, hk, hthn, if_false]
+      rw [dictSet_of_not_mem _ _ _ hnot]
+      simp [dddmpEntryOf, hk]
+    rw [dddmpBodyLoop, hadd]
+    simp only
+    rw [ih _ (fun y hy => hsub y (List.mem_cons_of_mem _ hy))]
+    · simp
+    · simpa [dddmpEntryOf, List.append_assoc] using hnd
+
+theorem dddmpBody_ok {f : DddmpFile} {i2p levels : List (Tok × Int)} {nv : Int}
+    (hw : DddmpBodyWF f i2p levels nv) (hT : dictGet i2p (.str "T") = some (nv + 1)) :
+    dddmpBody f i2p = .ok (f.nodes.map (dddmpEntryOf i2p)) := by
+  have := dddmpBodyLoop_ok hw hT f.nodes [] (fun _ h => h) (by simpa using hw.idsNodup)
+  simp [dddmpBody, this, lenNe, hw.nnodes]
+
+/-! ### the re-indexing of levels -/
+
+theorem dddmpReindex_ok (L : List (Tok × Int)) (hkeys : (L.map (·.1)).Nodup)
+    (hvals : (L.map (·.2)).Nodup) :
+    ∃ newLevels o2n, dddmpReindex L = .ok (newLevels, o2n) ∧
+      newLevels.map (·.2) = (List.range L.length).map (fun (i : Nat) => (i : Int)) ∧
+      (newLevels.map (·.1)).Perm (L.map (·.1)) ∧
+      (∀ var k, (var, k) ∈ L → ∃ i : Nat, dictGet o2n k = some (i : Int) ∧
+        (var, (i : Int)) ∈ newLevels ∧ (sortInts (L.map (·.2)))[i]? = some k) := by
+  -- `perm`
+  have hperm : dictOf (L.map fun p => (p.2, p.1)) = L.map fun p => (p.2, p.1) :=
+    dictOf_nodup _ (by simpa [List.map_map, Function.comp_def] using hvals)
+  have hpkeys : ((L.map fun p => (p.2, p.1)).map (·.1)).Nodup := by
+    simpa [List.map_map, Function.comp_def] using hvals
+  have hpk : (L.map fun p => (p.2, p.1)).map (·.1) = L.map (·.2) := by
+    simp [List.map_map, Function.comp_def]
+  -- the variable at an old level
+  let vo : Int → Tok := fun k => (dictGet (L.map fun p => (p.2, p.1)) k).getD default
+  have hvo : ∀ var k, (var, k) ∈ L → dictGet (L.map fun p => (p.2, p.1)) k = some var := by
+    intro var k hm
+    exact dictGet_of_mem _ hpkeys (List.mem_map.mpr ⟨(var, k), hm, rfl⟩)
+  have hvo' : ∀ var k, (var, k) ∈ L → vo k = var := by
+    intro var k hm
+    simp [vo, hvo var k hm]
+  -- sorted levels
+  have hSperm := sortInts_perm (L.map (·.2))
+  have hSnd : (sortInts (L.map (·.2))).Nodup := hSperm.nodup_iff.mpr hvals
+  have hSmem : ∀ k, k ∈ sortInts (L.map (·.2)) → ∃ var, (var, k) ∈ L := by
+    intro k hk
+    obtain ⟨p, hp, rfl⟩ := List.mem_map.mp (hSperm.mem_iff.mp hk)
+    exact ⟨p.1, hp⟩
+  have hSlen : (sortInts (L.map (·.2))).length = L.length := by
+    simpa using hSperm.length_eq
+  -- first `mapM`
+  have hm1 : (sortInts (L.map (·.2))).zipIdx.mapM (dddmpPermItem (L.map fun p => (p.2, p.1))) =
+      .ok ((sortInts (L.map (·.2))).zipIdx.map fun p => ((p.2 : Int), vo p.1)) := by
+    apply mapM_ok
+    intro p hp
+    obtain ⟨var, hv⟩ := hSmem p.1 (by
+      have := List.mem_zipIdx_iff_getElem?.mp hp
+      exact List.mem_of_getElem? this)
+    simp [dddmpPermItem, vo, hvo var p.1 hv]
+  -- `perm2`
+  have hp2 : dictOf ((sortInts (L.map (·.2))).zipIdx.map fun p => ((p.2 : Int), vo p.1)) =
+      (sortInts (L.map (·.2))).zipIdx.map fun p => ((p.2 : Int), vo p.1) := by
+    apply dictOf_nodup
+    have : (((sortInts (L.map (·.2))).zipIdx.map fun p => ((p.2 : Int), vo p.1)).map (·.1)) =
+        (List.range' 0 (sortInts (L.map (·.2))).length).map (fun (i : Nat) => (i : Int)) := by
+      rw [← List.zipIdx_map_snd 0 (sortInts (L.map (·.2))), List.map_map, List.map_map]
+      rfl
+    rw [this]
+    exact nodup_map_of_inj_on _ _ (fun a _ b _ h => by omega) (List.nodup_range' (step := 1))
+  -- `new_levels`
+  have hNLeq : ((sortInts (L.map (·.2))).zipIdx.map fun p => ((p.2 : Int), vo p.1)).map
+      (fun p => (p.2, p.1)) = (sortInts (L.map (·.2))).zipIdx.map fun p => (vo p.1, (p.2 : Int)) := by
+    rw [List.map_map]; rfl
+  have hNLk : ((sortInts (L.map (·.2))).zipIdx.map fun p => (vo p.1, (p.2 : Int))).map (·.1) =
+      (sortInts (L.map (·.2))).map vo := by
+    rw [List.map_map]
+    conv => rhs; rw [← List.zipIdx_map_fst 0 (sortInts (L.map (·.2))), List.map_map]
+    rfl
+  have hNLkperm : ((sortInts (L.map (·.2))).map vo).Perm (L.map (·.1)) := by
+    have h1 := hSperm.map vo
+    rw [List.map_map] at h1
+    have h2 : L.map (vo ∘ fun p => p.2) = L.map (·.1) :=
+      List.map_congr_left (fun p hp => hvo' p.1 p.2 hp)
+    rw [h2] at h1
+    exact h1
+  have hNLnd : (((sortInts (L.map (·.2))).zipIdx.map fun p => (vo p.1, (p.2 : Int))).map (·.1)).Nodup := by
+    rw [hNLk]
+    exact hNLkperm.nodup_iff.mpr hkeys
+  have hNL : dictOf ((sortInts (L.map (·.2))).zipIdx.map fun p => (vo p.1, (p.2 : Int))) =
+      (sortInts (L.map (·.2))).zipIdx.map fun p => (vo p.1, (p.2 : Int)) := dictOf_nodup _ hNLnd
+  have hNLv : ((sortInts (L.map (·.2))).zipIdx.map fun p => (vo p.1, (p.2 : Int))).map (·.2) =
+      (List.range L.length).map (fun (i : Nat) => (i : Int)) := by
+    rw [List.range_eq_range', ← hSlen, ← List.zipIdx_map_snd 0 (sortInts (L.map (·.2))),
+      List.map_map, List.map_map]
+    rfl
+  -- position of an old level among the sorted levels
+  have hpos : ∀ var k, (var, k) ∈ L → ∃ i : Nat, (sortInts (L.map (·.2)))[i]? = some k ∧
+      dictGet ((sortInts (L.map (·.2))).zipIdx.map fun p => (vo p.1, (p.2 : Int))) var =
+        some (i : Int) := by
+    intro var k hm
+    have hkS : k ∈ sortInts (L.map (·.2)) :=
+      hSperm.mem_iff.mpr (List.mem_map.mpr ⟨(var, k), hm, rfl⟩)
+    obtain ⟨i, hi⟩ := List.getElem?_of_mem hkS
+    refine ⟨i, hi, dictGet_of_mem _ hNLnd ?_⟩
+    refine List.mem_map.mpr ⟨(k, i), List.mk_mem_zipIdx_iff_getElem?.mpr hi, ?_⟩
+    simp [hvo' var k hm]
+  -- second `mapM`
+  have hm2 : L.mapM (dddmpO2nItem
+      ((sortInts (L.map (·.2))).zipIdx.map fun p => (vo p.1, (p.2 : Int)))) =
+      .ok (L.map fun p => (p.2,
+        (dictGet ((sortInts (L.map (·.2))).zipIdx.map fun p => (vo p.1, (p.2 : Int))) p.1).getD 0)) := by
+    apply mapM_ok
+    intro p hp
+    obtain ⟨i, _, hi⟩ := hpos p.1 p.2 hp
+    simp [dddmpO2nItem, hi]
+  have ho2k : ((L.map fun p => (p.2,
+        (dictGet ((sortInts (L.map (·.2))).zipIdx.map fun p => (vo p.1, (p.2 : Int))) p.1).getD 0)).map
+        (·.1)) = L.map (·.2) := by
+    rw [List.map_map]; rfl
+  have ho2 := dictOf_nodup (L.map fun p => (p.2,
+        (dictGet ((sortInts (L.map (·.2))).zipIdx.map fun p => (vo p.1, (p.2 : Int))) p.1).getD 0))
+    (by rw [ho2k]; exact hvals)
+  refine ⟨(sortInts (L.map (·.2))).zipIdx.map fun p => (vo p.1, (p.2 : Int)),
+    L.map fun p => (p.2,
+      (dictGet ((sortInts (L.map (·.2))).zipIdx.map fun p => (vo p.1, (p.2 : Int))) p.1).getD 0),
+    ?_, hNLv, ?_, ?_⟩
+  · unfold dddmpReindex
+    simp only [hperm, hpk, hm1, hp2, hNLeq, hNL, hm2, ho2]
+  · rw [hNLk]; exact hNLkperm
+  · intro var k hm
+    obtain ⟨i, hi, hd⟩ := hpos var k hm
+    refine ⟨i, ?_, ?_, hi⟩
+    · apply dictGet_of_mem _ (by rw [ho2k]; exact hvals)
+      refine List.mem_map.mpr ⟨(var, k), hm, ?_⟩
+      simp [hd]
+    · exact dictGet_some_mem _ hd
+
 end DD
